@@ -244,6 +244,35 @@ pub fn stress(dir: &str, output: &str, seed: u64, thorough: bool) -> Value {
 			out.emit(&e);
 			lookups += 1;
 		}
+		// the same from plain OS threads, each driving its lookups with its own minimal executor (no runtime of its own)
+		if !src.ends_with("_http") {
+			let mut handles = vec![];
+			for t in 0..4usize {
+				let reader = reader.clone();
+				let coords = coords.clone();
+				let mut r = Rng::new(seed ^ 0x05e7 ^ t as u64);
+				let src = src.to_string();
+				handles.push(std::thread::spawn(move || {
+					let mut evs = vec![];
+					for _ in 0..(if src == "pmtiles_leaves" { 2000 } else { 200 }) {
+						let c = *r.pick(&coords);
+						let h = match catch(|| futures::executor::block_on(reader.get_tile_data(&c))) {
+							Ok(Ok(Some(b))) => h31(b.as_slice()) as i64,
+							Ok(Ok(None)) => 0,
+							_ => -1,
+						};
+						evs.push(json!({"ev":"Conc","src":src,"t":100 + t,"z":c.z,"x":c.x,"y":c.y,"h":h,"via":"os_thread"}));
+					}
+					evs
+				}));
+			}
+			for h in handles {
+				for e in h.join().unwrap() {
+					out.emit(&e);
+					lookups += 1;
+				}
+			}
+		}
 		let _ = std::fs::remove_file(&path);
 	}
 	let _ = std::fs::remove_file(&p);
